@@ -140,6 +140,47 @@ def cli_cases(ctx, datas):
         os.chdir(cwd)
 
 
+def through_strategies(ctx):
+    """the atoms stay whole lines / single bytes / delimiter-bounded symbols while a strategy works on them — in
+    particular after minimize-collapse-brace re-splits the collapsed text (custom --cut-before/--cut-after included)"""
+    from .. import strat
+    rng = ctx.rng
+    datas = [b"keep,a|x,f{ \n },b|c{\t},d\n", b"a;b{  }c;d{\n}e;\n", b"x{\r\n}\r\ny{ }z\r\n"]
+    cuts = [("symbol", None), ("symbol", (b"|", b",")), ("symbol", (b"", b";")), ("symbol", (b"{", b"}")), ("line", None), ("char", None)]
+    for name in ("minimize", "minimize-collapse-brace", "minimize-balanced"):
+        for data in datas:
+            for kind, cut in cuts:
+                res = loaders.real_load(kind, data, cut)
+                if res[0] != "ok":
+                    continue
+                f = strat.fields(res[1])
+                for p in (0.0, 0.3, 0.7):
+                    seq = [rng.random() < p for _ in range(97)]
+                    tc = strat.testcase_from_fields(kind, f, cut)
+                    tc.filename = str(loaders.scratch() / "c15-collapse.txt")
+                    # brace collapsing is the first thing accepted, deletions follow the random sequence
+                    run = strat.run_real(name, {}, tc, lambda k, c, seq=seq: seq[k % 97] or (b"{ }" in c and k < 40), max_tests=3000)
+                    ctx.evaluations += 1
+                    ctx.bump("through:" + name)
+                    case = dict(strategy=name, splitter=kind, data=common.enc_bytes(data), cut=None if cut is None else [c.hex() for c in cut],
+                                verdicts="".join("1" if v else "0" for v in run.verdicts[:60]))
+                    if run.error:
+                        continue
+                    for a in run.atts:
+                        c = a["cand"]
+                        region = b"".join(c[1])
+                        if kind == "line":
+                            check_line(ctx, region, c[1], case)
+                        elif kind == "char":
+                            if any(len(x) != 1 for x in c[1]):
+                                ctx.fail("char-atoms", f"char atoms {c[1]!r}", case)
+                        elif a["tag"] == 3 and all(c[2]):
+                            # the testcase re-loaded after a brace collapse is a fresh split: its boundaries must follow the sets
+                            B, A = cut if cut is not None else (b"]}:", b"?=;{[\n")
+                            check_symbol(ctx, region, c[1], B, A, dict(case, resplit=True))
+                            ctx.bump("resplit-checked")
+
+
 def known_finding_cases(ctx):
     # recorded finding: overlapping delimiter sets (see known_findings.json / DESIGN.md §5.13)
     symbol_case(ctx, b";;b", (b";", b";"), do_model=True)
@@ -176,6 +217,7 @@ def run(ctx) -> int:
         line_char_case(ctx, b"".join(rng.choice(LINE_ALPHA + [b"b", b"\r\n", b"\xe2\x80\xa8"]) for _ in range(n)))
         symbol_case(ctx, b"".join(rng.choice(SYM_ALPHA + [b"\xa7", b"\xc2", b"\xff"]) for _ in range(n)),
                     rng.choice([None] + CUSTOM_SETS))
+    through_strategies(ctx)
     cli_cases(ctx, [b"a;b]c-d^e\\f[g", b";;a]]", b"a\xc2\xa7b;c\xff\x80", b"]a^-b\\;", b"{a:b}=c?d\n[e]"] +
               ([b"".join(rng.choice(SYM_ALPHA) for _ in range(12)) for _ in range(10)] if ctx.thorough else []))
     return common.decide(ctx, proof, RULE, search=search,
